@@ -740,13 +740,14 @@ impl<M: ConvexCellMarker + 'static> ConvexCell<M> {
     }
 
     /// The top of the tetrahedra whose base triangles are fed to the face integrals of the
-    /// given clipping plane: the generator of this cell, unless it lies exactly _on_ the plane
-    /// (a generator on a wall of the simulation volume). The tetrahedra are flat in that case
-    /// and the orientation of their base triangles as seen from the generator (the sign of
-    /// their contribution) is undefined, so a point on the inside of the plane is used instead.
+    /// given clipping plane: the generator of this cell, unless it lies _on_ the plane (a
+    /// generator on a wall of the simulation volume) or so close to it, compared to the size of
+    /// the cell, that the tetrahedra are flat up to rounding. The orientation of their base
+    /// triangles as seen from the generator (the sign of their contribution) is undefined in
+    /// that case, so a point on the inside of the plane is used instead.
     pub(super) fn face_apex(&self, plane_idx: usize) -> DVec3 {
         let plane = &self.clipping_planes[plane_idx].plane;
-        if plane.n.dot(self.loc - plane.p) == 0. {
+        if plane.n.dot(self.loc - plane.p).abs() <= 1e-4 * self.safety_radius {
             // (far enough not to be absorbed by the rounding of large coordinates)
             self.loc + (1. + self.loc.abs().max_element()) * plane.n
         } else {
